@@ -301,4 +301,34 @@ Section K.
       + right. destruct (Nat.leb limit (length agreed)) eqn:E; [|discriminate]. split; [lia|].
         rewrite forallb_forall in H4. intros y Hy. specialize (H4 y Hy). lia.
   Qed.
+
+  (* ... and complete: K01 never rejects an outcome that meets the specification, so a K01 alarm on the
+     implementation's output is a violation of C01_spec, never an artefact of the checker *)
+  Theorem K01_with_complete thr limit obs agreed :
+    C01_spec shuf thr limit obs agreed -> K01_with result_eqb thr limit shuf obs agreed = true.
+  Proof.
+    unfold K01_with, C01_spec. intros [H1 [H2 [H3 H4]]]. rewrite !andb_true_iff. repeat split.
+    - apply forallb_forall. intros r Hr. rewrite supportb_support. specialize (H1 r Hr). lia.
+    - apply nodupb_NoDup. exact H2.
+    - lia.
+    - apply forallb_forall. intros r Hr. rewrite supportb_support.
+      destruct (Nat.leb thr (support r obs)) eqn:E; [|reflexivity].
+      assert (Hs : (thr <= support r obs)%nat) by lia.
+      destruct (H4 r Hr Hs) as [[a [Ha [Hw Hc]]]|[Hl Hy]]; apply orb_true_iff.
+      + left. apply existsb_exists. exists a. split; [exact Ha|].
+        replace (r_wid a =? r_wid r) with true by lia. rewrite supportb_support. lia.
+      + right. replace (Nat.leb limit (length agreed)) with true by lia.
+        apply forallb_forall. intros y Hy'. specialize (Hy y Hy'). lia.
+  Qed.
+
+  (* hence the model's own outcome always passes K01 (with an injective digest) *)
+  Corollary model_passes_K01 utg wg uid pi_u pi_b tp tb lim prev l :
+    (forall v, Permutation (pi_u v) v) ->
+    (forall a b, uid a = uid b -> a = b) -> (forall a b, shuf a = shuf b -> a = b) -> (1 <= tp)%nat ->
+    K01_with result_eqb tp (l_agreed lim) shuf (valid_obs_list (valid_obs utg wg) l)
+      (oc_agreed (outcome_of uid shuf (valid_obs utg wg) true pi_u pi_b tp tb lim prev l)) = true.
+  Proof.
+    intros Hp Hu Hs Ht. apply K01_with_complete.
+    exact (outcome_C01 utg wg uid shuf pi_u pi_b Hp tp tb lim prev l Hu Hs Ht).
+  Qed.
 End K.
